@@ -369,7 +369,23 @@ pub fn random_case(rng: &mut Rng) -> Case {
                     1 => hname.to_lowercase(),
                     _ => hname.to_uppercase(),
                 };
+                // a repeated header: extra values the expression rejects, before and/or after the accepted
+                // one, must neither prevent the match nor disturb the capture (any value may satisfy the
+                // condition, and the capture comes from the value that does)
+                let decoy_name = |rng: &mut Rng| match rng.below(3) {
+                    0 => hname.clone(),
+                    1 => hname.to_lowercase(),
+                    _ => hname.to_uppercase(),
+                };
+                if rng.chance(1, 5) {
+                    let n = decoy_name(rng);
+                    headers_req.push((n, rng.pick(&["decoy", "", "v--", "-end", "V-"]).to_string()));
+                }
                 headers_req.push((req_name, format!("v-{v}-end")));
+                if rng.chance(1, 5) {
+                    let n = decoy_name(rng);
+                    headers_req.push((n, rng.pick(&["decoy", "", "v--", "-end", "V-"]).to_string()));
+                }
             }
         }
     }
@@ -543,8 +559,7 @@ pub fn check(case: &Case) -> Result<(), Failure> {
         .rule
         .headers
         .iter()
-        .zip(case.request.headers.iter())
-        .any(|(r, (qn, _))| r.name != *qn && r.name.to_lowercase() == qn.to_lowercase());
+        .any(|r| case.request.headers.iter().any(|(qn, _)| r.name != *qn && r.name.to_lowercase() == qn.to_lowercase()));
     let classify = |what: &str, got: &str, want: &str| -> Failure {
         // F14: header marker not captured because capture compares header names case-sensitively
         let class = if header_is_name_case { "C10-F14" } else { "substitution" };
